@@ -508,7 +508,7 @@ def oracle_lig(case, lo):
     if case.kind != "c13" or case.fields["sub"][0] != "ligflow":
         return fails
     lig = case.fields["lig"]
-    who = "UnivariateLigero(sec=%s, rho_inv=%s, wf=%s), %d coefficients" % (lig[0], lig[1], lig[2], len(case.fields["poly"]))
+    who = "%s(sec=%s, rho_inv=%s, wf=%s), %d coefficients/evaluations" % (case.fields["scheme"][0], lig[0], lig[1], lig[2], len(case.fields["poly"]))
     for step in ("commit", "open"):
         if lib_s(lo, step) != "ok":
             fails.append("%s: %s aborted: %s" % (who, step, lib_s(lo, step)))
